@@ -121,6 +121,11 @@ def bounded(tier, seed):
     evals += 1
     if bad:
         viol.append(dict(ob="bounded/shape-rejection", func="matrix_inverse_root", input={}, text=bad, detail=bad, replay=dict(kind="shapes")))
+    bad = mf.native_eigen_value()
+    evals += 1
+    distinct.add(("eigen-value-and-repeatability",))
+    if bad:
+        viol.append(dict(ob="bounded/eigen-root-value-and-repeatability", func="_matrix_inverse_root_eigen", input=dict(configs=["default", "enhance_stability"], calls_per_size=2), text=bad, detail=bad, replay=dict(kind="eigen")))
     return dict(evaluations=evals, distinct_nontrivial=len(distinct),
                 rule="zero / rank-deficient / slightly indefinite / PSD symmetric matrices, sizes x dtypes x roots: finite, symmetric, positive definite, eigenvalues <= eps^(-1/r), commutes with the input, orthogonal equivariance; tolerances from n*u*cond(A+eps I); distinct = distinct parameter tuples",
                 samples=[dict(n=8, kind="zero", dtype="f32", root=4)], bound=f"sizes {sizes}", violations=viol)
@@ -144,6 +149,10 @@ def replay_file(doc):
             if not torch.isfinite(X).all() or float(X) <= 0:
                 return True, f"matrix_inverse_root([[{val}]], root=2, epsilon={eps}) = {X.tolist()} (not finite positive)"
         return False, "1x1 slightly negative inputs give finite positive roots"
+    if rp.get("kind") == "eigen":
+        bad = mf.native_eigen_value()
+        if bad:
+            return True, bad
     if rp.get("kind") == "diag_any_sign":
         import torch
         from fractions import Fraction
